@@ -408,6 +408,10 @@ def special_forms(ctx, mon, conn, tabs, cases):
                  'SELECT 1.00 AS b, 1 AS a, TRUE AS c, count(*) AS n FROM #v', 'SELECT DISTINCT 1 AS a, 1.0 AS b FROM #v',
                  'SELECT 1 AS a, 1.0 AS b FROM #v ORDER BY 2, 1', 'SELECT 1, 1.0, TRUE', 'SELECT 0.0, 0, FALSE'):
         stmts.append((text, None, 'constants/equal-valued'))
+    # un-aliased literals as targets, the empty string among them
+    for text in ("SELECT '', 2", "SELECT '', c_date, c_decimal FROM #v", 'SELECT c_str, "", sum(c_int) FROM #v GROUP BY 1, 2', "SELECT x FROM (SELECT '', c_int AS x FROM #v)",
+                 "SELECT 'a', '', ' ', c_int FROM #v", 'SELECT "", \'\', c_bool FROM #v', "SELECT DISTINCT '', c_bool FROM #v", "SELECT '', count(*) FROM #v"):
+        stmts.append((text, None, 'constants/empty-string-target'))
     for params in ((2, _D('2.00')), (_D('2.00'), 2), (True, 1), (1, True), (0, False, _D('0')), (_D('1'), True, 1)):
         cols = ', '.join(f'%s AS p{i}' for i in range(len(params)))
         stmts.append((f'SELECT {cols} FROM #v', params, 'constants/equal-valued-params'))
